@@ -53,6 +53,11 @@ checks.update({
  "C19": dict(cat="fault_enumeration", ref="4/C19", tech="runtime monitoring: file-tree snapshot oracle + verifier call log over real Install/ExtractBinary/VerifyIndex; strace per-(thread, syscall) SIGKILL injection on a re-executed harness child; porcupine register model for the index high-water mark",
    text="Every file-system syscall of a registry install (72-116 per install, 6 prestate scenarios) is a kill point: the child is SIGKILLed right before it, the directory is judged (manifest/index-state old-or-new, artifact absent-or-verified bytes) and a second install must complete. The install gate is enumerated over digest{10} x verifier{4} x fetch failure{20} x unsigned-policy context{9} x prestate{4} (full product in thorough). Extraction containment and the index high-water mark are explored with generated hostile archives (27 name x 31 type classes) and concurrent signed-index histories checked with porcupine.", note="Kill = SIGKILL at syscall entry via strace injection (no power-loss model; fsync ordering not judged). Sigstore cryptography is the trusted base (scripted ArtifactVerifier). Bundle install path not covered. An index-digest path traversal into the cache directory (RemoveAll outside the install dir) is recorded as an observation, not charged to C19 (DESIGN.md)."),
 })
+
+checks.update({
+ "C11": dict(cat="exploration", ref="4/C11", tech="runtime monitoring: plugin-session interval / call-return / stored-status oracle over control-call histories with slow store acknowledgements of status writes; porcupine linearizability check of healthy control histories against a 3-state lifecycle register + Go race detector",
+   text="One sequential client per pipeline issues 5-14 control calls (Start, Stop, Stop+Wait, StopAndWait, force stop, overlapping background waits) in healthy, failure-interleaved and gated-status histories (every status write acknowledged 2-22 ms late; Stop, Start as soon as the stopped status is visible, StopAndWait on the new run). Judged: plugin sessions of one connector never overlap; a stop on a Running pipeline with a live run is neither refused nor misses that run; StopAndWait/WaitPipeline return only after the run that was live at the call is torn down and report its result; Start after an ended run is not refused as 'already running'; final status agrees with whether a run is live; healthy call results are linearizable (porcupine); wedge = watchdog twice; a reproduced process death is a violation.", note=PIPE_NOTE + " Calls are issued one at a time per pipeline as the property's quantifier says."),
+})
 ALL = ["C%02d" % i for i in range(1, 21)]
 na_reason = "check under construction in this round (see DESIGN.md section 4 for the planned monitor); not claimed until it runs silent on the unchanged tree and catches seeded mutants"
 m = {
